@@ -52,6 +52,7 @@ func (e *Engine) VerifyFunction(fn *ssa.Function, safe bool) (res *FnResult) {
 		v := vc.freshVal("p_"+p.Name(), p.Type(), heap)
 		args = append(args, v)
 	}
+	vc.topArgs = args
 	for _, fv := range fn.FreeVars {
 		fr.vals[fv] = vc.freshVal("fv_"+fv.Name(), fv.Type(), heap)
 	}
@@ -102,9 +103,10 @@ func (e *Engine) VerifyFunction(fn *ssa.Function, safe bool) (res *FnResult) {
 					vc.specError(fn, cl, err)
 					continue
 				}
-				name := fmt.Sprintf("%s/post#%d/ret%d", fnName(fn), i+1, ri+1)
+				name := fmt.Sprintf("%s/post:%s/ret%d", fnName(fn), clauseId(cl, i), ri+1)
 				o := vc.oblige("post", name, cl.Tags, r.reach, t, fn, r.pos, cl.Src)
 				o.Extra = map[string]string{"contract": fmt.Sprintf("%s:%d", cl.File, cl.Line)}
+				o.Spec = cl
 			}
 		}
 		if len(fr.rets) > 0 && len(c.Ensures) > 0 {
@@ -219,3 +221,10 @@ func sortObls(obls []*Obligation) {
 }
 
 var _ = token.NoPos
+
+func clauseId(cl *Clause, i int) string {
+	if len(cl.Tags) > 0 {
+		return cl.Tags[0]
+	}
+	return fmt.Sprintf("#%d", i+1)
+}
